@@ -457,6 +457,17 @@ func runCase(c Case) (f *fail) {
 	if left := env.Net.Open(); len(left) > 0 {
 		return &fail{tag + "/socket-left", fmt.Sprintf("%v (%+v)", left, c)}
 	}
+	if ff := balanced(env, tag, c); ff != nil {
+		return ff
+	}
+	if w.lateCB.Load() > 0 {
+		return &fail{tag + "/client-callback-after-close", fmt.Sprintf("%d packet callbacks after Client.Close returned (%+v)", w.lateCB.Load(), c)}
+	}
+	return nil
+}
+
+// balanced: every open notification has exactly one close notification, nothing for a session after its close.
+func balanced(env *sysx.Env, tag string, c Case) *fail {
 	connOpen := map[*gortsplib.ServerConn]int{}
 	connClose := map[*gortsplib.ServerConn]int{}
 	sessOpen := map[*gortsplib.ServerSession]int{}
@@ -497,9 +508,6 @@ func runCase(c Case) (f *fail) {
 			return &fail{tag + "/session-close-without-open", fmt.Sprintf("%d close notifications without open (%+v)", n, c)}
 		}
 	}
-	if w.lateCB.Load() > 0 {
-		return &fail{tag + "/client-callback-after-close", fmt.Sprintf("%d packet callbacks after Client.Close returned (%+v)", w.lateCB.Load(), c)}
-	}
 	return nil
 }
 
@@ -514,7 +522,8 @@ type jobT struct {
 	Cases []Case `json:"cases"`
 }
 type jobOut struct {
-	Fails []*fail `json:"fails"`
+	Fails []*fail  `json:"fails"`
+	Info  []string `json:"info"` // fault cases: the operation that was failed ("" = the n-th operation did not occur)
 }
 
 func main() {
@@ -524,13 +533,20 @@ func main() {
 			json.Unmarshal(raw, &j) //nolint:errcheck
 			var out jobOut
 			for _, c := range j.Cases {
+				if c.Mode == "fault" {
+					f, info := runFault(c)
+					out.Fails = append(out.Fails, f)
+					out.Info = append(out.Info, info)
+					continue
+				}
 				out.Fails = append(out.Fails, runCase(c))
+				out.Info = append(out.Info, "")
 			}
 			return out
 		})
 	}
 	run := evid.New("C13", "model_checking")
-	run.Rule("whole system: case = (scenario in {play-tcp, play-udp, record-tcp, record-udp, two-readers-tcp, stalled-reader-tcp, play/record over the WebSocket tunnel, play-tcp / play-udp / record-tcp over rtsps with SRTP}, step index k = 0..len(steps), closer in {Server.Close, ServerStream.Close, Client.Close}, order in {after step k-1 completed, concurrently with step k}); all combinations; plus handler-gated in-flight cases {record, play} x {udp, tcp} x closer {TEARDOWN, Server.Close, connection drop + timeout | Client.Close, Server.Close, ServerStream.Close}: the harness holds a packet callback open, starts the closer, lets the library run to quiescence, releases the callback; plus Client.Close against a scripted server that keeps sending unsolicited {responses, requests}: the client's routine is held in its hook, the reader is parked with the next message and a backlog of 64 behind it, Close starts, the hook is released (8 trials each - the runtime's choice between the two ready channels is not controlled); plus requests queued at a session while it ends: the session is held inside a handler, 1-2 further connections send {OPTIONS, GET_PARAMETER, TEARDOWN, PLAY, PAUSE} with its id, terminator in {none, ServerSession.Close, ServerStream.Close, Server.Close}, the handler is released (120 cases); cores: every interleaving (preemption bound <=2 quick / <=3 thorough) of the lifecycle drivers of rtpsender.Sender, rtpreceiver.Receiver and the async processor under the controlled scheduler. states = distinct (scenario, k, closer, order) situations + distinct core histories; transitions = protocol steps and scheduling points executed; every trace runs on the implementation. non-trivial = k >= 1")
+	run.Rule("whole system: case = (scenario in {play-tcp, play-udp, record-tcp, record-udp, two-readers-tcp, stalled-reader-tcp, play/record over the WebSocket tunnel, play-tcp / play-udp / record-tcp over rtsps with SRTP}, step index k = 0..len(steps), closer in {Server.Close, ServerStream.Close, Client.Close}, order in {after step k-1 completed, concurrently with step k}); all combinations; plus handler-gated in-flight cases {record, play} x {udp, tcp} x closer {TEARDOWN, Server.Close, connection drop + timeout | Client.Close, Server.Close, ServerStream.Close}: the harness holds a packet callback open, starts the closer, lets the library run to quiescence, releases the callback; plus Client.Close against a scripted server that keeps sending unsolicited {responses, requests}: the client's routine is held in its hook, the reader is parked with the next message and a backlog of 64 behind it, Close starts, the hook is released (8 trials each - the runtime's choice between the two ready channels is not controlled); plus requests queued at a session while it ends: the session is held inside a handler, 1-2 further connections send {OPTIONS, GET_PARAMETER, TEARDOWN, PLAY, PAUSE} with its id, terminator in {none, ServerSession.Close, ServerStream.Close, Server.Close}, the handler is released (120 cases); plus Server.Close while a connection is between the listener and the server (network Accept hook, 12 trials x {no, one} established connection); plus ONE ENVIRONMENT FAULT per execution: in every client-driven scenario the n-th operation of one class fails - dial by the client (ECONNREFUSED, n<=3), opening of a client datagram socket (EADDRINUSE, n<=6), read / write on the client's or the server's side of a control connection (ECONNRESET, the connection is reset; n<=10 / 12), datagram send by server or client (ENETUNREACH, n<=8) - every step of the scenario must still return, then the client is closed, 60 s of virtual time pass and the server must have ended every connection and session by itself, then everything is closed with the usual oracle; and Server.Start with its n-th socket refused (n<=4) fails and leaves nothing behind; cores: every interleaving (preemption bound <=2 quick / <=3 thorough) of the lifecycle drivers of rtpsender.Sender, rtpreceiver.Receiver and the async processor under the controlled scheduler. states = distinct (scenario, k, closer, order) situations + distinct core histories; transitions = protocol steps and scheduling points executed; every trace runs on the implementation. non-trivial = k >= 1")
 	run.Assume("wall-clock is only the hang detector; virtual time is advanced by up to 150 s at quiescence while a call is pending")
 	run.Assume("the whole-system part runs free (Go scheduler decides the interleaving of the racing order); exhaustive interleaving exploration is limited to the component cores")
 
@@ -551,6 +567,7 @@ func main() {
 		}
 	}
 	cases = append(cases, inflightCases()...)
+	cases = append(cases, faultCases()...)
 	if run.Replay != "" {
 		var d struct {
 			Case Case `json:"case"`
@@ -578,6 +595,7 @@ func main() {
 	}
 	results := evid.RunJobs(jobs, 16, 5*time.Minute)
 	confirmed := map[string]bool{}
+	faultsFired, faultsNotReached := 0, 0
 	for ji, r := range results {
 		if r.Crashed || r.Stalled {
 			sig := "crash"
@@ -601,6 +619,14 @@ func main() {
 				run.Nontrivial(fmt.Sprint(c))
 			}
 			run.Outcome(fmt.Sprint(c.Scenario, c.Who, c.Mode, f == nil))
+			if c.Mode == "fault" {
+				if k < len(out.Info) && out.Info[k] != "" {
+					faultsFired++
+					run.Outcome(fmt.Sprint("fault fired: ", c.Scenario, " ", c.Who))
+				} else {
+					faultsNotReached++
+				}
+			}
 			if f != nil {
 				// the racing order of these executions is the Go scheduler's: a failure counts when the same
 				// case fails the same way again within 40 more runs (or 90 s); the rate is part of the report
@@ -648,5 +674,6 @@ func main() {
 		cores(run)
 	}
 	run.Set("whole_system_cases", len(cases))
+	run.Set("environment_fault_cases", map[string]int{"fault_injected": faultsFired, "nth_operation_did_not_occur": faultsNotReached})
 	run.Finish()
 }
